@@ -677,34 +677,6 @@ class Step:
     __slots__ = ('op', 'cls', 'applied', 'dump', 'head', 'weak', 'strong', 'inexact', 'inv_expected', 'check_exc', 'rename_msg')
 
 
-def run_real(hist, stop_on_set_loop=True):
-    """run a history on the real code; returns (start ops for the model, list of Step, truncated?)"""
-    g = start_grid(hist.start)
-    start_ops = grid_as_ops(g) if hist.start is not None else []
-    steps = []
-    inexact = False
-    for op in hist.ops:
-        st = Step()
-        st.op = op
-        st.cls = classify(g, op)
-        if op[0] in ('minc', 'embed'):
-            inexact = True
-        a = apply_op(g, op)
-        g = a.grid
-        st.applied = a
-        st.inexact = inexact
-        st.head = dump_applied(a)
-        st.dump = dump_grid(g)
-        st.weak = oracle(g, False)
-        st.strong = oracle(g, True)
-        steps.append(st)
-        if a.set_loop_exc and stop_on_set_loop:
-            # an exception inside a loop over a Python set: which elements were processed before it
-            # depends on hash order (not reproducible): the history ends here
-            return start_ops, steps, g, True
-    return start_ops, steps, g, False
-
-
 def model_line(start_ops, steps, dump_from=0):
     toks = ['seq']
     for op in start_ops:
